@@ -216,6 +216,27 @@ func c04GenGz(r *Rand, tier string) []string {
 	for _, z := range [][]byte{[]byte("plain\r\ntext\nno newline"), {}, {0x1f, 0x8b}, {0x1f, 0x8b, 8, 0, 0, 0, 0, 0, 0, 3}} {
 		out = append(out, fmt.Sprintf("gz imm 4 %s .", Hex(z)), fmt.Sprintf("gz file 2 %s .", Hex(z)))
 	}
+	// real size: more decoded data than the batcher's 128 KiB buffer (the scanner refills / regrows under the real gzip
+	// reader, through the real OpenFilesToChan), two members, a '\r\n' line layout that puts line ends on both sides
+	// of the 131072-byte boundary; cut in the second member: read error after > 128 KiB of delivered lines
+	{
+		var big bytes.Buffer
+		for m := 0; m < 2; m++ {
+			w, _ := gzip.NewWriterLevel(&big, gzip.DefaultCompression)
+			for j := 0; j < 3300+r.Intn(40); j++ {
+				fmt.Fprintf(w, "GET /index.html %d\r\n", 200+j%7)
+				if j%1000 == 999 {
+					w.Flush()
+				}
+			}
+			w.Close()
+		}
+		z := big.Bytes()
+		out = append(out, fmt.Sprintf("gz file 1000 %s .", Hex(z)), fmt.Sprintf("gz file 7 %s .", Hex(z[:len(z)-r.Range(1, 40)])))
+		if tier == "thorough" {
+			out = append(out, fmt.Sprintf("gz imm 4096 %s 1,0,64", Hex(z)), fmt.Sprintf("gz buf 4096 %s .", Hex(z)))
+		}
+	}
 	for i := 0; i < n; i++ {
 		z := c04GzFile(r)
 		switch r.Intn(8) {
